@@ -184,6 +184,14 @@ for _which in (0, 1):
              note="a peer with SEVERAL addresses of which one is blacklisted is not verified, and the blacklisted address does not "
                   "become a known address. " + BOUND)
 
+contract(f"{NET}::Network.add_verified_peer", "add_verified_peer.known-key.address-is-current", vars=BASE,
+         instances=[s for s in SHAPES if s["n"] >= 1 and not s["two_addr"] and s["n_walk"] == 0], requires=[*PRE, "k3 == k1"],
+         call="(p1.address, net.add_verified_peer(p3), p1.address)", raises=[],
+         ensures=["result[2] == (ip3, port3)", "result[0] == (ip1, port1)", "net.get_verified_by_public_key_bin(k1).address == (ip3, port3)"],
+         bounded=BOUND, replay=KEYS,
+         note="history: the peer's address has been read before (any lookup does that); an address update for the known key is then "
+              "visible through Peer.address - the preferred-address cache must not go stale. " + BOUND)
+
 contract(f"{NET}::Network.add_verified_peer", "add_verified_peer.known-key", vars=BASE,
          instances=[s for s in SHAPES if s["n"] >= 1], requires=[*PRE, "k3 == k1"],
          call="net.add_verified_peer(p3)", raises=[],
